@@ -191,7 +191,8 @@ def run(ctx, rep):
 
     # ---------------- R3.9 long-name slots: unused units are 0xFFFF after a single 0x0000 terminator
     LG = facts.fns.get('<fatfs::dir::LfnEntriesGenerator as core::iter::traits::iterator::Iterator>::next')
-    if LG is not None:
+    # (the build without `lfn` has a stub generator that yields nothing)
+    if LG is not None and 'fatfs::dir::MAX_LONG_DIR_ENTRIES' in facts.consts:
         part_len = facts.consts.get('fatfs::dir_entry::LFN_PART_LEN', {}).get('val', 13)
         pads = []
         for bi in LG.reachable():
